@@ -123,12 +123,43 @@ def persist_member(desc, tier, seed):
         live.append((name, g))
 
     derive('base', b.dsg, 0)
-    # decoding further instances from a processor built on the base graph
-    for enc in ('COMPLETE',):
+    # graphs that already hold stored values: values stored on a graph derived from them must not show up in them
+    dvn = list(b.dsg.des_var_nodes)
+    mets = list(b.dsg.metric_nodes)
+    valued = None
+    if dvn or mets:
+        def store(g, k):
+            for n in g.des_var_nodes:
+                g.set_des_var_value(n, k if n.is_discrete else n.bounds[0] + (n.bounds[1] - n.bounds[0]) * (0.25 * (k + 1)))
+            for m in g.metric_nodes:
+                g.set_metric_value(m, 1.5 + k)
+        try:
+            valued = b.dsg.copy()
+            store(valued, 0)
+            add('base.valued', valued, 'copy(base)+store values')
+            c2 = valued.copy()
+            add('base.valued.copy', c2, 'copy(base.valued)')
+            store(c2, 1)
+            snaps['base.valued.copy'] = observe_all(b, c2)      # its own values were changed on purpose
+            recheck('store values on base.valued.copy')
+            for cn in list(valued.get_ordered_next_choice_nodes())[:1]:
+                if isinstance(cn, SelectionChoiceNode):
+                    for o in valued.get_option_nodes(cn)[:2]:
+                        d = valued.get_for_apply_selection_choice(cn, o)
+                        nm = f'base.valued.sel({cn.decision_id}={b.name_of.get(o)})'
+                        add(nm, d, nm)
+                        store(d, 2)
+                        snaps[nm] = observe_all(b, d)
+                        recheck(f'store values on {nm}')
+        except Exception as e:  # noqa
+            ctx.check('C08.stored-values-api-total', False, ['graph-api', 'store-values'], f'{type(e).__name__}: {e}',
+                      (desc.label, 'store-values'))
+    # decoding further instances from a processor built on the base graph (and on the graph holding stored values)
+    for enc, root in (('COMPLETE', b.dsg),) + ((('COMPLETE', valued),) if valued is not None else ()):
         try:
             from adsg_core.optimization.graph_processor import GraphProcessor
             from adsg_core.optimization.hierarchy import SelChoiceEncoderType
-            gp = GraphProcessor(b.dsg, encoder_type=getattr(SelChoiceEncoderType, enc))
+            gp = GraphProcessor(root, encoder_type=getattr(SelChoiceEncoderType, enc))
             from .harness import all_vectors
             X, _ = all_vectors(gp.des_vars, cap=24)
             insts = []
